@@ -227,6 +227,7 @@ func C16(p *engine.Prog, r *engine.Report) {
 	c16R4(p, r)
 	c16R5(p, r)
 	c16R6(p, r)
+	c16R7(p, r)
 }
 
 // varNameOf: the source variable name behind a value when it is a load of a named local /
@@ -639,4 +640,67 @@ func c16R6(p *engine.Prog, r *engine.Report) {
 		}
 	}
 	r.Floor("C16-R6", 2, "attribution + index tests")
+}
+
+// c16R7: (a) the address -> index cache used to find a recipient's slot holds, for every candidate,
+// its position in its OWN shard's candidate list (the value stored depends on the position of the
+// inner loop over shard.candidates, not on how many entries the map already has); (b) flip-key
+// messages are accepted for the current epoch only (an equality gate, not an ordering).
+func c16R7(p *engine.Prog, r *engine.Report) {
+	if f := mustFunc(p, r, "core/ceremony", "ValidationCeremony.calculateCeremonyCandidates"); f != nil {
+		n := 0
+		for _, b := range f.Blocks {
+			for _, ins := range b.Instrs {
+				mu, ok := ins.(*ssa.MapUpdate)
+				if !ok {
+					continue
+				}
+				mt, isM := mu.Map.Type().Underlying().(*types.Map)
+				if !isM || mt.Elem().String() != "int" || !strings.HasSuffix(mt.Key().String(), "common.Address") {
+					continue
+				}
+				n++
+				hdr := enclosingLoopHeader(b)
+				okPos := hdr != nil && dependsOnLoopPosition(mu.Value, loopBlocks(hdr))
+				usesLen := false
+				for v := range engine.BackSlice(mu.Value, engine.SliceOpts{MaxNodes: 30}) {
+					if c, isC := v.(*ssa.Call); isC {
+						if bi, isB := c.Call.Value.(*ssa.Builtin); isB && bi.Name() == "len" {
+							usesLen = true
+						}
+					}
+				}
+				r.Check(okPos && !usesLen, "C16-R7", uniq(r, "calculateCeremonyCandidates|the cached index of a candidate is its position in its own shard's list"), p.InstrPos(mu), "range index of shard.candidates", "the index cached for a candidate is not the position of the loop over its shard's candidates (e.g. the running size of the map, which spans all shards): in every shard but one, recipients are resolved to other candidates' keys and slots — an assigned candidate cannot extract or decrypt its flip key")
+			}
+		}
+		if n == 0 {
+			r.Und("C16-R7", "calculateCeremonyCandidates|index cache", p.Pos(f.Pos()), "no address->int map filled")
+		}
+	}
+	if f, _ := p.Func("core/mempool", "validateKey"); f != nil {
+		r.Fn(engine.FuncName(f))
+		g := guardsWhere(f, func(cond ssa.Value) (bool, bool, string) {
+			x, y, isEq, ok := eqCond(cond)
+			if !ok {
+				return false, false, ""
+			}
+			for _, pr := range [][2]ssa.Value{{x, y}, {y, x}} {
+				c, isC := engine.Unwrap(pr[0]).(*ssa.Call)
+				if isC && engine.CallIs(c, "core/state.StateDB.Epoch") && engine.Origin(pr[1]) == ssa.Value(f.Params[1]) {
+					return true, isEq, "State.Epoch() == epoch"
+				}
+			}
+			return false, false, ""
+		})
+		ok := len(g) > 0
+		for _, ret := range successReturns(f) {
+			if !engine.OnlyThroughPassRet(f, ret, g) {
+				ok = false
+			}
+		}
+		r.Check(ok, "C16-R7", "validateKey|a flip key message is accepted for the current epoch only", p.Pos(f.Pos()), "success only behind State.Epoch() == epoch", "flip keys / key packages of another epoch pass validation (an ordering test or none instead of the equality): a replayed package of the previous epoch is decrypted and cached, and later extractions are served from it — recipients get last epoch's key")
+	} else {
+		r.Und("C16-R7", "validateKey", "", "function not found")
+	}
+	r.Floor("C16-R7", 2, "index cache + epoch gate")
 }
